@@ -307,6 +307,27 @@ class Report:
             self.samples.append(x)
 
 
+def apply_rule_floors(pid, rep, config, tier='quick'):
+    """every rule that produced obligations on the tree the rules were confirmed on must still produce some:
+    a rule that silently stops matching (renamed anchor, changed idiom, a slip in the rule library) would otherwise pass
+    vacuously.  The counts are recorded by sa/mkexpected.py in sa/rules/expected_counts.json.  The floor is deliberately low (a
+    quarter, at least one): an equivalent way of writing an anchor often gives a rule fewer instances (a std sort instead of the
+    bubble sort, a filter instead of a `continue`), and that must not raise an alarm."""
+    p = os.path.join(VERIF, 'sa', 'rules', 'expected_counts.json')
+    if not os.path.exists(p) or os.environ.get('VERIF_NO_RULE_FLOORS'):
+        return
+    with open(p) as f:
+        exp = json.load(f).get(pid, {}).get('%s/%s' % (tier, 'release' if config == 'release' else 'debug'), {})
+    have = {}
+    for o in rep.obligations:
+        have[o['rule']] = have.get(o['rule'], 0) + 1
+    for rule, n in sorted(exp.items()):
+        floor = max(1, n // 4)
+        rep.ob('engine', 'rule-still-applies:%s' % rule, have.get(rule, 0) >= floor,
+               'rule %s produced %d obligation(s) for %s; %d were produced on the tree the rule was confirmed on (floor %d): the rule no longer '
+               'finds what it is about, so its silence means nothing' % (rule, have.get(rule, 0), pid, n, floor), reason='floor')
+
+
 def load_known():
     p = os.path.join(VERIF, 'known_findings.json')
     if not os.path.exists(p):
